@@ -137,8 +137,8 @@ theorem C10_split_needs_targets (c : Core) (name : Bytes) (pct : Int) (allow : L
 /-! ### stickiness across commands (any history, no bound) -/
 
 /-- One command: the split (percentage and allowlist) of an installed service `n` is left exactly as it was by
-    every command other than `rollout set n`, `rollout stop n`, `remove` and a restart — in particular by a
-    redeploy or a rollout redeploy of `n` itself, by pause/stop/resume, and by any command on another service,
+    every command other than `rollout set n`, `rollout stop n`, `remove n` and a restart — in particular by a
+    redeploy or a rollout redeploy of `n` itself, by pause/stop/resume, and by any command (incl. `remove`) on another service,
     whether the command succeeds or fails. (Restart: `C11_reachable_roundtrip`.) -/
 theorem C10_split_survives_command (c : Core) (cmd : Cmd) (n : Bytes) (s : Option Split)
     (h : splitOf c.svcs n = some s) (hc : touchesSplit n cmd = false) :
@@ -167,18 +167,24 @@ example : pickSlot ⟨[], ⟨[], [], false, [], [], false, [], [], [], false⟩,
 
 
 def o1 : SvcOptions := ⟨[asciiB "a.com"], [], false, [], [], true, [], [], [], true⟩
+def o2 : SvcOptions := ⟨[asciiB "b.com"], [], false, [], [], true, [], [], [], true⟩
 def t1 : TargetOptions := ⟨[], 1, 1, 1, false, false, 0, 0, 0, [], [], false⟩
 def env1 : Env := ⟨true, true, true⟩
 def hist1 : List Cmd := [.deploy (asciiB "s4") [asciiB "s4-t1-a:80"] o1 t1 env1,
   .rolloutDeploy (asciiB "s4") [asciiB "s4-r2-a:80"] env1, .rolloutSet (asciiB "s4") 0 [asciiB "qa-team"]]
 def hist2 : List Cmd := [.deploy (asciiB "s4") [asciiB "s4-t3-a:80"] o1 t1 env1, .pause (asciiB "s4") 5,
   .resume (asciiB "s4"), .rolloutDeploy (asciiB "s4") [asciiB "s4-r4-a:80"] ⟨true, true, false⟩,
-  .deploy (asciiB "other") [asciiB "ot-t1-a:80"] o1 t1 env1]
--- non-vacuity: the hypotheses of `C10_split_survives_history` hold of a reachable state and a five-command history
+  .deploy (asciiB "other") [asciiB "ot-t1-a:80"] o2 t1 env1, .remove (asciiB "other")]
+-- non-vacuity: the hypotheses of `C10_split_survives_history` hold of a reachable state and a six-command history
+-- (redeploy, pause, resume, failed rollout deploy, deploy and removal of another service)
 example : splitOf (runCore hist1).svcs (asciiB "s4") = some (some ⟨0, [asciiB "qa-team"]⟩) ∧
     (∀ cmd ∈ hist2, touchesSplit (asciiB "s4") cmd = false) ∧
     splitOf (hist2.foldl (fun c cmd => (stepCore c cmd).1) (runCore hist1)).svcs (asciiB "s4") =
       some (some ⟨0, [asciiB "qa-team"]⟩) := by
   refine ⟨by decide +kernel, by decide +kernel, by decide +kernel⟩
+
+example : (splitOf ((hist2.take 5).foldl (fun c cmd => (stepCore c cmd).1) (runCore hist1)).svcs (asciiB "other")).isSome = true ∧
+    (splitOf (hist2.foldl (fun c cmd => (stepCore c cmd).1) (runCore hist1)).svcs (asciiB "other")).isSome = false := by
+  refine ⟨by decide +kernel, by decide +kernel⟩
 
 end KamalProxy.C10
